@@ -10,7 +10,7 @@ from oasmc.engine import digest_arrays
 ID = "C18"
 RULE = (
     "ladders: complete product k_lam x Mach x t/c x sweep x side with a 30-step Reynolds ladder (part re), t/c ladder (part tc), Mach and CL "
-    "ladders for wave drag (part wave), option switches (part off), and all mesh resolutions nx x ny x spacing (uniform, cosine, strongly graded towards root / tip) x side of a constant-chord "
+    "ladders for wave drag (part wave), option switches on the components (part off) and through AeroPoint / AerostructPoint, where the group's CDv / CDw also equal the real drag chain at the surface's reported CL (part offgroup), and all mesh resolutions nx x ny x spacing (uniform, cosine, strongly graded towards root / tip) x side of a constant-chord "
     "untwisted wing through the real chain mesh -> VLMGeometry -> ViscousDrag / WaveDrag (part res); non-trivial = distinct ladders with "
     "non-constant values"
 )
